@@ -658,16 +658,17 @@ struct SInterp<'a> {
     node: Option<Node>,
     admin: Option<TcpClient>,
     clients: BTreeMap<u8, TcpClient>,
-    members: BTreeSet<u8>,
+    /// members of group 1 and of group 2 (same topic)
+    members: [BTreeSet<u8>; 2],
     /// payload count per partition
     sent: Vec<u64>,
-    /// next offset the group must be handed per partition
-    handed: Vec<u64>,
+    /// next offset each group must be handed per partition
+    handed: [Vec<u64>; 2],
     out: Outcome,
     step: usize,
     serial: u64,
-    /// per client: partitions visited since the last membership / partition change
-    visits: BTreeMap<u8, Vec<u32>>,
+    /// per (group, client): partitions visited since the last membership / partition change
+    visits: BTreeMap<(usize, u8), Vec<u32>>,
     changed_between_polls: bool,
 }
 
@@ -685,8 +686,12 @@ impl<'a> SInterp<'a> {
         }
         Ok(())
     }
-    fn gid() -> Identifier {
-        Identifier::numeric(1).unwrap()
+    fn gid(g: usize) -> Identifier {
+        Identifier::numeric(g as u32 + 1).unwrap()
+    }
+    /// selector byte -> (group index, client): bit 4 selects the second group
+    fn split(c: u8) -> (usize, u8) {
+        (((c >> 4) & 1) as usize, c & 15)
     }
     fn client(&mut self, c: u8) -> Result<(), Failure> {
         if !self.clients.contains_key(&c) {
@@ -701,9 +706,12 @@ impl<'a> SInterp<'a> {
     }
 
     /// get_consumer_group must satisfy the validity predicate; returns member id -> share
-    fn group_view(&mut self, why: &str) -> Result<BTreeMap<u32, Vec<u32>>, Failure> {
+    fn group_view(&mut self, g: usize, why: &str) -> Result<BTreeMap<u32, Vec<u32>>, Failure> {
+        let why = format!("{why}, group {}", g + 1);
+        let why = why.as_str();
         let n = self.node();
-        let r = n.block_on(async { self.admin.as_ref().unwrap().get_consumer_group(&sid(), &tid(), &Self::gid()).await });
+        let r = n.block_on(async { self.admin.as_ref().unwrap().get_consumer_group(&sid(), &tid(), &Self::gid(g)).await });
+        let gi = g;
         let g = match r {
             Ok(Some(g)) => g,
             other => return Err(self.fail("group-vanished", format!("{why}: get_consumer_group: {:?}", other.map(|o| o.is_some())))),
@@ -712,8 +720,8 @@ impl<'a> SInterp<'a> {
         if g.partitions_count != parts {
             return Err(self.fail("group-partitions-count", format!("{why}: group reports {} partitions, topic has {parts}", g.partitions_count)));
         }
-        if g.members_count as usize != self.members.len() || g.members.len() != self.members.len() {
-            return Err(self.fail("group-members-count", format!("{why}: group reports {} members ({} listed), {} joined: {:?}", g.members_count, g.members.len(), self.members.len(), self.members)));
+        if g.members_count as usize != self.members[gi].len() || g.members.len() != self.members[gi].len() {
+            return Err(self.fail("group-members-count", format!("{why}: group reports {} members ({} listed), {} joined: {:?}", g.members_count, g.members.len(), self.members[gi].len(), self.members[gi])));
         }
         let mut shares = BTreeMap::new();
         for m in &g.members {
@@ -733,17 +741,18 @@ impl<'a> SInterp<'a> {
         self.changed_between_polls = true;
     }
 
-    fn poll(&mut self, c: u8, count: u32) -> Check {
+    fn poll(&mut self, sel: u8, count: u32) -> Check {
+        let (g, c) = Self::split(sel);
         self.client(c)?;
         let n = self.node.as_ref().unwrap();
         let cl = self.clients.get(&c).unwrap();
         let me = n.block_on(async { iggy::client::SystemClient::get_me(cl).await }).map(|m| m.client_id).unwrap_or(0);
-        let shares = self.group_view("before poll")?;
+        let shares = self.group_view(g, "before poll")?;
         let n = self.node.as_ref().unwrap();
         let cl = self.clients.get(&c).unwrap();
-        let r = n.block_on(async { cl.poll_messages(&sid(), &tid(), None, &Consumer::group(Self::gid()), &PollingStrategy::next(), count, true).await });
+        let r = n.block_on(async { cl.poll_messages(&sid(), &tid(), None, &Consumer::group(Self::gid(g)), &PollingStrategy::next(), count, true).await });
         self.panics("group poll")?;
-        let is_member = self.members.contains(&c);
+        let is_member = self.members[g].contains(&c);
         let pm = match r {
             Ok(pm) => pm,
             Err(e) => {
@@ -771,7 +780,7 @@ impl<'a> SInterp<'a> {
             return Err(self.fail("served-outside-share", format!("member {me} (client {c}) with share {:?} was served from partition {}", share, pm.partition_id)));
         }
         // visiting each of its partitions in turn
-        let v = self.visits.entry(c).or_default();
+        let v = self.visits.entry((g, c)).or_default();
         v.push(pm.partition_id);
         let k = share.len();
         if v.len() >= k {
@@ -783,7 +792,7 @@ impl<'a> SInterp<'a> {
         }
         // offsets handed to the group: in order, none twice
         let idx = (pm.partition_id - 1) as usize;
-        let want_from = self.handed[idx];
+        let want_from = self.handed[g][idx];
         let avail = self.sent[idx];
         let want: Vec<u64> = (want_from..(want_from + count as u64).min(avail)).collect();
         let got: Vec<u64> = pm.messages.iter().map(|m| m.offset).collect();
@@ -792,7 +801,7 @@ impl<'a> SInterp<'a> {
                 "member {me} polling partition {} (next, auto-commit, count {count}) was handed offsets {:?}; the group had been handed everything below {want_from}, {} are stored: expected {:?}",
                 pm.partition_id, got, avail, want)));
         }
-        self.handed[idx] += got.len() as u64;
+        self.handed[g][idx] += got.len() as u64;
         if self.changed_between_polls && !got.is_empty() {
             self.out.label("poll-after-membership-change");
             self.out.nontrivial = true;
@@ -817,51 +826,64 @@ impl<'a> SInterp<'a> {
             a.create_stream("s", Some(1)).await?;
             a.create_topic(&sid(), "t", parts, CompressionAlgorithm::None, None, Some(1), IggyExpiry::NeverExpire, MaxTopicSize::Unlimited).await?;
             a.create_consumer_group(&sid(), &tid(), "g", Some(1)).await?;
+            a.create_consumer_group(&sid(), &tid(), "h", Some(2)).await?;
             Ok::<(), IggyError>(())
         });
         if let Err(e) = r {
             return Err(self.fail("setup", format!("{e}")));
         }
         self.sent = vec![0; parts as usize];
-        self.handed = vec![0; parts as usize];
+        self.handed = [vec![0; parts as usize], vec![0; parts as usize]];
         let ops = self.case.ops.clone();
         for (i, op) in ops.iter().enumerate() {
             self.step = i;
             self.out.steps += 1;
             match op.clone() {
-                SOp::Join(c) => {
+                SOp::Join(sel) => {
+                    let (g, c) = Self::split(sel);
                     self.client(c)?;
                     let n = self.node.as_ref().unwrap();
                     let cl = self.clients.get(&c).unwrap();
-                    let r = n.block_on(async { cl.join_consumer_group(&sid(), &tid(), &Self::gid()).await });
+                    let r = n.block_on(async { cl.join_consumer_group(&sid(), &tid(), &Self::gid(g)).await });
                     self.panics("join")?;
                     if let Err(e) = r {
                         return Err(self.fail("join-failed", format!("{e}")));
                     }
                     // a repeated join of a member re-creates it (rotation starts over): a membership event
-                    self.members.insert(c);
+                    self.members[g].insert(c);
+                    if self.members[0].contains(&c) && self.members[1].contains(&c) {
+                        self.out.label("client-in-both-groups");
+                    }
                     self.reset_visits();
                 }
-                SOp::Leave(c) => {
-                    if !self.members.contains(&c) {
+                SOp::Leave(sel) => {
+                    let (g, c) = Self::split(sel);
+                    if !self.members[g].contains(&c) {
                         continue;
                     }
                     let n = self.node.as_ref().unwrap();
                     let cl = self.clients.get(&c).unwrap();
-                    let r = n.block_on(async { cl.leave_consumer_group(&sid(), &tid(), &Self::gid()).await });
+                    let r = n.block_on(async { cl.leave_consumer_group(&sid(), &tid(), &Self::gid(g)).await });
                     self.panics("leave")?;
                     if let Err(e) = r {
                         return Err(self.fail("leave-failed", format!("{e}")));
                     }
-                    self.members.remove(&c);
+                    self.members[g].remove(&c);
                     self.reset_visits();
                 }
-                SOp::Disconnect(c) => {
+                SOp::Disconnect(sel) => {
+                    let (_, c) = Self::split(sel);
                     if let Some(cl) = self.clients.remove(&c) {
                         let n = self.node.as_ref().unwrap();
                         let _ = n.block_on(async { cl.shutdown().await });
                         drop(cl);
-                        let was = self.members.remove(&c);
+                        let was0 = self.members[0].remove(&c);
+                        let was1 = self.members[1].remove(&c);
+                        let was = was0 || was1;
+                        if was0 && was1 {
+                            self.out.label("member-of-both-groups-disconnected");
+                            self.out.nontrivial = true;
+                        }
                         // the server notices the closed connection in that connection's task
                         let want = 1 + self.clients.len();
                         let deadline = std::time::Instant::now() + std::time::Duration::from_secs(2);
@@ -888,7 +910,8 @@ impl<'a> SInterp<'a> {
                     }
                     for _ in 0..k {
                         self.sent.push(0);
-                        self.handed.push(0);
+                        self.handed[0].push(0);
+                        self.handed[1].push(0);
                     }
                     self.reset_visits();
                 }
@@ -905,7 +928,8 @@ impl<'a> SInterp<'a> {
                     }
                     for _ in 0..k {
                         self.sent.pop();
-                        self.handed.pop();
+                        self.handed[0].pop();
+                        self.handed[1].pop();
                     }
                     self.reset_visits();
                 }
@@ -929,26 +953,31 @@ impl<'a> SInterp<'a> {
                 }
             }
             self.panics("after step")?;
-            let shares = self.group_view("after step")?;
-            if shares.len() as u32 > self.sent.len() as u32 {
-                self.out.label("more-members-than-partitions");
-                self.out.nontrivial = true;
-            }
-        }
-        // drain: with >= 1 member every message must eventually be handed out, none twice
-        self.step = ops.len();
-        if !self.members.is_empty() {
-            let rounds = 2 * self.sent.len() + 2;
-            let total_left: u64 = self.sent.iter().zip(self.handed.iter()).map(|(s, h)| s - h).sum();
-            let members: Vec<u8> = self.members.iter().copied().collect();
-            for _ in 0..(rounds as u64 + total_left / 50 + 1) * 2 {
-                for c in &members {
-                    self.poll(*c, 100)?;
+            for g in 0..2 {
+                let shares = self.group_view(g, "after step")?;
+                if shares.len() as u32 > self.sent.len() as u32 {
+                    self.out.label("more-members-than-partitions");
+                    self.out.nontrivial = true;
                 }
             }
-            for (i, (s, h)) in self.sent.iter().zip(self.handed.iter()).enumerate() {
+        }
+        // drain: with >= 1 member every message must eventually be handed out, none twice (per group)
+        self.step = ops.len();
+        for g in 0..2usize {
+            if self.members[g].is_empty() {
+                continue;
+            }
+            let rounds = 2 * self.sent.len() + 2;
+            let total_left: u64 = self.sent.iter().zip(self.handed[g].iter()).map(|(s, h)| s - h).sum();
+            let members: Vec<u8> = self.members[g].iter().copied().collect();
+            for _ in 0..(rounds as u64 + total_left / 50 + 1) * 2 {
+                for c in &members {
+                    self.poll(*c | ((g as u8) << 4), 100)?;
+                }
+            }
+            for (i, (s, h)) in self.sent.iter().zip(self.handed[g].iter()).enumerate() {
                 if s != h {
-                    return Err(self.fail("group-never-handed-messages", format!("after the drain phase partition {} still has offsets {}..{} that no member was handed", i + 1, h, s)));
+                    return Err(self.fail("group-never-handed-messages", format!("after the drain phase partition {} still has offsets {}..{} that no member of group {} was handed", i + 1, h, s, g + 1)));
                 }
             }
             self.out.label("drained");
@@ -957,18 +986,23 @@ impl<'a> SInterp<'a> {
     }
 }
 
+/// second-group selector bit (bit 4 of the client byte): group 1 twice as often as group 2
+fn grp() -> BoxedStrategy<u8> {
+    prop_oneof![2 => Just(0u8), 1 => Just(16u8)].boxed()
+}
+
 impl Engine for Groups {
     type Case = SCase;
     fn strategy(&self, p: &Params) -> BoxedStrategy<SCase> {
         let max_ops = if p.tier == Tier::Thorough { 50 } else { 30 };
         let op = prop_oneof![
-            6 => (0u8..5).prop_map(SOp::Join),
-            2 => (0u8..5).prop_map(SOp::Leave),
+            6 => (0u8..5, grp()).prop_map(|(c, g)| SOp::Join(c | g)),
+            2 => (0u8..5, grp()).prop_map(|(c, g)| SOp::Leave(c | g)),
             2 => (0u8..5).prop_map(SOp::Disconnect),
             2 => (1u8..4).prop_map(SOp::AddParts),
             2 => (1u8..4).prop_map(SOp::DelParts),
             8 => (any::<u16>(), 1u8..8).prop_map(|(part, n)| SOp::Send { part, n }),
-            12 => (0u8..5, 1u8..6).prop_map(|(client, count)| SOp::Poll { client, count }),
+            12 => (0u8..5, grp(), 1u8..6).prop_map(|(client, g, count)| SOp::Poll { client: client | g, count }),
         ];
         (prop_oneof![Just(1u32), Just(1000)], 1u32..=5, proptest::collection::vec(op, 1..=max_ops))
             .prop_map(|(thr, partitions, ops)| SCase { cfg: NodeCfg { save_threshold: thr, ..NodeCfg::default() }, partitions, ops })
@@ -981,9 +1015,9 @@ impl Engine for Groups {
             node: None,
             admin: None,
             clients: BTreeMap::new(),
-            members: BTreeSet::new(),
+            members: [BTreeSet::new(), BTreeSet::new()],
             sent: vec![],
-            handed: vec![],
+            handed: [vec![], vec![]],
             out: Outcome::default(),
             step: 0,
             serial: 0,
@@ -1010,6 +1044,6 @@ impl Engine for Groups {
         out
     }
     fn rule(&self, _p: &Params) -> String {
-        "case = generated history of join / leave / disconnect of up to 5 client connections, create / delete partitions (1..8), sends, and poll(next, auto-commit, no partition id) by arbitrary clients in arbitrary order against the real server over TCP; after every step get_consumer_group must satisfy the validity predicate (every partition assigned to exactly one member, shares differ by <= 1); every poll must be served from the polling member's share, rotate through it, and hand out exactly the next offsets of that partition (none twice, none skipped); a final drain must hand out everything; non-trivial = more members than partitions, or a non-empty poll after a membership / partition-count change".into()
+        "case = generated history of join / leave / disconnect of up to 5 client connections in TWO consumer groups of the same topic (a connection may be a member of both), create / delete partitions (1..8), sends, and poll(next, auto-commit, no partition id) by arbitrary clients in arbitrary order against the real server over TCP; after every step get_consumer_group of BOTH groups must list exactly the joined connections and satisfy the validity predicate (every partition assigned to exactly one member, shares differ by <= 1); every poll must be served from the polling member's share, rotate through it, and hand out exactly the next offsets of that partition (none twice, none skipped); a final drain must hand out everything; non-trivial = more members than partitions, or a non-empty poll after a membership / partition-count change, or the disconnect of a member of both groups".into()
     }
 }
